@@ -309,7 +309,7 @@ func reifyStruct(opts *options, orig reflect.Value, cfg *Config) Error {
 					if err != nil {
 						return err
 					}
-					vField.Set(v)
+					fInfo.value.Set(pointerize(fInfo.value.Type(), v.Type(), v))
 
 				default:
 					return raiseInlineNeedsObject(cfg, fInfo.name, fInfo.value.Type())
@@ -574,13 +574,23 @@ func reifyMergeValue(
 		return old, nil
 	}
 
+	if !old.CanAddr() {
+		// old is held in an interface (or comes from a map entry) and can not be
+		// modified in place: merge into a copy, the caller stores the result
+		tmp := reflect.New(old.Type()).Elem()
+		tmp.Set(old)
+		old = tmp
+	}
+
+	// the result has the type found in the target (t), which may be a pointer
+	// to baseType
 	switch baseType.Kind() {
 	case reflect.Map:
 		sub, err := val.toConfig(opts.opts)
 		if err != nil {
 			return reflect.Value{}, raiseExpectedObject(opts.opts, val)
 		}
-		return old, reifyMap(opts.opts, old, sub, opts.validators)
+		return pointerize(t, baseType, old), reifyMap(opts.opts, old, sub, opts.validators)
 
 	case reflect.Struct:
 		if baseType == tRegexp {
@@ -591,13 +601,21 @@ func reifyMergeValue(
 		if err != nil {
 			return reflect.Value{}, raiseExpectedObject(opts.opts, val)
 		}
-		return oldValue, reifyStruct(opts.opts, old, sub)
+		return pointerize(t, baseType, old), reifyStruct(opts.opts, old, sub)
 
 	case reflect.Array:
-		return reifyArray(opts, old, baseType, val)
+		v, err := reifyArray(opts, old, baseType, val)
+		if err != nil {
+			return reflect.Value{}, err
+		}
+		return pointerize(t, baseType, v), nil
 
 	case reflect.Slice:
-		return reifySliceMerge(opts, old, baseType, val)
+		v, err := reifySliceMerge(opts, old, baseType, val)
+		if err != nil {
+			return reflect.Value{}, err
+		}
+		return pointerize(t, baseType, v), nil
 	}
 
 	return reifyPrimitive(opts, val, t, baseType)
